@@ -32,8 +32,16 @@ Guards (behaviour that is by design or unspecified, so not demanded):
   builds the initial state.
 
 Mechanisms: ``list-slice-setitem-bounds`` is reserved for slice assignment whose step is
-<= 0 or whose bounds lie outside [-len, len] (the hand-computed bounds suspected in
-DESIGN section 6); everything else is ``<family>-<op>-<aspect>``.
+<= 0 or whose bounds lie outside [-len, len] (the hand-computed bounds of DESIGN
+section 6; fixed in /repo by b7b3380, reverse diff kept in selftest/C38); a right-hand
+side that is not iterable / not sized is labelled by that shape first (it fails the same
+way whatever the bounds); everything else is ``<family>-<op>-<aspect>``.
+
+Still firing on the live tree (candidate defects, see the report): ``dict-ior-bypasses-
+events`` (``coll |= {...}`` goes straight to dict.__ior__: no events, nothing persisted),
+``set-difference-update-self``, ``list-remove-absent-fires-remove-event``,
+``list-extended-slice-setitem-needs-sized-rhs``, ``list-slice-setitem-mutates-before-
+typeerror``.
 """
 from __future__ import annotations
 
